@@ -585,7 +585,10 @@ impl BatchSemaphore {
 
         match self.fairness {
             Fairness::StrictlyFair => {
-                if index == 0 {
+                // During execution cleanup the task list is already gone: there is nobody left to
+                // hand the permits to (and looking a task up would panic inside this destructor).
+                let in_cleanup = ExecutionState::try_with(|s| s.in_cleanup()).unwrap_or(true);
+                if index == 0 && !in_cleanup {
                     // If the semaphore is strictly fair, and we removed the first waiter, check if its
                     // removal unblocks remaining waiters.  This can happen in the following situation:
                     // - the semahore has 1 permit available
